@@ -45,3 +45,21 @@ package trafficpattern
 //@   ensures old(c.original.TcpFragment) != nil && old(c.original.TcpFragment.MaxSleepMs) != nil ==> *c.effective.TcpFragment.MaxSleepMs == old(*c.original.TcpFragment.MaxSleepMs)
 //@   ensures 0 <= *c.effective.TcpFragment.MaxSleepMs && *c.effective.TcpFragment.MaxSleepMs <= 100
 //@   ensures !unlockAll && (old(c.original.TcpFragment) == nil || old(c.original.TcpFragment.Enable) == nil) ==> !*c.effective.TcpFragment.Enable
+
+//@ // "Values left unset are derived deterministically from the seed and the unlock-all flag"
+//@ // (C16): every generator is driven by exactly the configured seed whenever one is configured
+//@ // - 0 included - and by the configured unlock-all flag; the host-specific seed is used only
+//@ // when no seed is configured.
+//@ func (c *Config) generateImplicitTrafficPattern()
+//@   property C16
+//@   mode int
+//@   partial
+//@   posts_only
+//@   noframe
+//@   may_panic
+//@   requires c != nil && c.original != nil
+//@   assert_call Config.generateTCPFragment: [C16] (old(c.original.Seed) != nil ==> arg0 == int(old(*c.original.Seed))) && (arg1 <==> (old(c.original.UnlockAll) != nil && old(*c.original.UnlockAll)))
+//@   assert_call Config.generateNoncePattern: [C16] (old(c.original.Seed) != nil ==> arg0 == int(old(*c.original.Seed))) && (arg1 <==> (old(c.original.UnlockAll) != nil && old(*c.original.UnlockAll)))
+//@   assert_call Config.generatePaddingPattern: [C16] (old(c.original.Seed) != nil ==> arg0 == int(old(*c.original.Seed))) && (arg1 <==> (old(c.original.UnlockAll) != nil && old(*c.original.UnlockAll)))
+//@   assert_call Config.generateLowEntropyPattern: [C16] (old(c.original.Seed) != nil ==> arg0 == int(old(*c.original.Seed))) && (arg1 <==> (old(c.original.UnlockAll) != nil && old(*c.original.UnlockAll)))
+
